@@ -24,6 +24,7 @@ typedef struct {
     long fail_call;     /* 1-based write invocation that fails (0 never) */
     int fail_close;     /* close() of the sink reports failure */
     long calls; int failed; int closed;
+    int transient;      /* the failing invocation fails once; later writes succeed again (set after mcf_sink_open) */
     char tiny[16];
 } mcf_sink_t;
 /* bufmode: 0 default stdio buffering, 1 unbuffered, 2 16-byte full buffering */
